@@ -281,6 +281,67 @@ Example C08_static_product_example :
   accepted (run w_gm false false st [RqStatic (CStep w_A) [w_atxt]; amend1 w_B ROutput w_atxt]) = false.
 Proof. vm_compute. repeat split; reflexivity. Qed.
 
+(* define_step(creator, label, out/vol = [p]) (`define1`) versus the other single declarations:
+   a static tree (same hypotheses as C08_tree_product_commute), an amended product, a static
+   file, and another definition (same label: duplicate-step message with sorted creators; same
+   path: collision message; both root: boot message; otherwise independent). *)
+Theorem C08_tree_define_commute :
+  forall gm gr st c path c2 lbl r p,
+    Inv gm gr st -> product_role r = true ->
+    filter (is_prefix (with_slash path)) (loose st) = [] ->
+    accepted (step gm false gr st (RqTree c path)) = true ->
+    accepted (step gm false gr st (define1 c2 lbl r p)) = true ->
+    both (run gm false gr st [RqTree c path; define1 c2 lbl r p])
+         (run gm false gr st [define1 c2 lbl r p; RqTree c path]).
+Proof. exact tree_define_commute. Qed.
+
+Theorem C08_define_product_commute :
+  forall gm gr st c2 lbl r p s r' p',
+    Inv gm gr st -> product_role r = true -> product_role r' = true ->
+    accepted (step gm false gr st (define1 c2 lbl r p)) = true ->
+    accepted (step gm false gr st (amend1 s r' p')) = true ->
+    both_equiv (run gm false gr st [define1 c2 lbl r p; amend1 s r' p'])
+               (run gm false gr st [amend1 s r' p'; define1 c2 lbl r p]).
+Proof. exact define_product_commute. Qed.
+
+Theorem C08_define_static_commute :
+  forall gm gr st c2 lbl r p c1 p1,
+    Inv gm gr st -> product_role r = true ->
+    accepted (step gm false gr st (define1 c2 lbl r p)) = true ->
+    accepted (step gm false gr st (RqStatic c1 [p1])) = true ->
+    both_equiv (run gm false gr st [define1 c2 lbl r p; RqStatic c1 [p1]])
+               (run gm false gr st [RqStatic c1 [p1]; define1 c2 lbl r p]).
+Proof. exact define_static_commute. Qed.
+
+Theorem C08_define_define_commute :
+  forall gm gr st cA lA rA pA cB lB rB pB,
+    Inv gm gr st -> product_role rA = true -> product_role rB = true ->
+    accepted (step gm false gr st (define1 cA lA rA pA)) = true ->
+    accepted (step gm false gr st (define1 cB lB rB pB)) = true ->
+    both_equiv (run gm false gr st [define1 cA lA rA pA; define1 cB lB rB pB])
+               (run gm false gr st [define1 cB lB rB pB; define1 cA lA rA pA]).
+Proof. exact define_define_commute. Qed.
+
+Example C08_define_example :
+  let st := run_skip w_gm false false empty_state
+              [RqDefine CRoot w_plan [] [] []; RqDefine (CStep w_plan) w_A [] [] [];
+               RqDefine (CStep w_plan) w_B [] [] []] in
+  let x := s2l "x" in let y := s2l "y" in
+  (* same label by two creators: duplicate-step message in both orders *)
+  run w_gm false false st [define1 (CStep w_A) x ROutput w_atxt; define1 (CStep w_B) x ROutput w_d]
+    = run w_gm false false st [define1 (CStep w_B) x ROutput w_d; define1 (CStep w_A) x ROutput w_atxt] /\
+  accepted (run w_gm false false st [define1 (CStep w_A) x ROutput w_atxt; define1 (CStep w_B) x ROutput w_d]) = false /\
+  (* same output path: collision message in both orders *)
+  run w_gm false false st [define1 (CStep w_A) x ROutput w_atxt; define1 (CStep w_B) y RVolatile w_atxt]
+    = run w_gm false false st [define1 (CStep w_B) y RVolatile w_atxt; define1 (CStep w_A) x ROutput w_atxt] /\
+  accepted (run w_gm false false st [define1 (CStep w_A) x ROutput w_atxt; define1 (CStep w_B) y RVolatile w_atxt]) = false /\
+  (* output under a tree: tree/product message in both orders *)
+  run w_gm false false st [RqTree (CStep w_B) w_d; define1 (CStep w_A) x ROutput (w_d ++ [47; 120])]
+    = Err (MTreeProduct (w_d ++ [47]) (w_d ++ [47; 120])) /\
+  run w_gm false false st [define1 (CStep w_A) x ROutput (w_d ++ [47; 120]); RqTree (CStep w_B) w_d]
+    = Err (MTreeProduct (w_d ++ [47]) (w_d ++ [47; 120])).
+Proof. vm_compute. repeat split; reflexivity. Qed.
+
 (* Glob pattern versus amended product for the variant of register_nglob that scans the
    products (gr = true, findings.d/C08-D3.patch): rejected in both orders with the same message
    exactly when the regex matches the product, else accepted in both orders with the same state.
